@@ -229,15 +229,18 @@ class SymSim(mosaik_api_v3.Simulator):
                 return until if bool(time < until) else time + 1
             return None
         last = k == K - 1
+        # a configuration parameter of the simulator: behind the cmd starter it comes from the process environment, else from the job
+        env = getattr(self, 'proc_env', None)
+        g = builtins.int(env.get('VK_GAIN', 0)) if env is not None else CTX.get('gain', {}).get(self.sid, 0)
         if self.typ == 'time-based':
             d = eng.int(f'{self.sid}.d{k}', 1)
             if last:
                 eng.assume(time + d >= until)
-            return time + d
+            return time + d + g
         if last or self.sid in CTX.get('no_self', ()):
             return None
         if eng.flag(f'{self.sid}.self{k}'):
-            return time + eng.int(f'{self.sid}.d{k}', 1)
+            return time + eng.int(f'{self.sid}.d{k}', 1) + g
         return None
 
     def get_data(self, outputs):
@@ -360,7 +363,7 @@ def build(world, ref, topo, eng, cfg):
                     rec(it, path + [gid])
             else:
                 typ = topo['types'][it]
-                f = world.start('R' if it in cfg.get('remote', ()) else 'S', sim_id=it, typ=typ)
+                f = world.start(f'C_{it}' if it in cfg.get('remote_cmd', ()) else ('R' if it in cfg.get('remote', ()) else 'S'), sim_id=it, typ=typ)
                 n_ent = 1 + max([0] + [('e', 'f', 'g').index(e.get(k, 'e')) for e in topo['edges'] for k, s_ in (('se', e['src']), ('de', e['dst'])) if s_ == it])
                 made = f.M.create(n_ent)
                 ents[it] = {x.eid: x for x in made}
@@ -441,7 +444,7 @@ def run_world(eng, topo, cfg, behaviour=None, hook=None, fault=None, rules=None,
     until = cfg.get('until', 3)
     if until == 'sym':
         until = eng.int('until', cfg.get('until_min', 1))
-    remote_sids = set(cfg.get('remote', ()))
+    remote_sids = set(cfg.get('remote', ())) | set(cfg.get('remote_cmd', ()))
     if remote_sids:
         from vk import remote as R
         loop = R.MemLoop(eng, D=cfg.get('D', 0))
@@ -459,7 +462,7 @@ def run_world(eng, topo, cfg, behaviour=None, hook=None, fault=None, rules=None,
                sync=set(cfg.get('sync', ())), future_outputs=cfg.get('future_outputs', False),
                no_self=set(cfg.get('no_self', ())), behaviour=behaviour, hook=hook, fault=fault,
                quiet_after_K=cfg.get('quiet_after_K', True),
-               bounded_times=bool(cfg.get('cache', True) or cfg.get('debug', False)))
+               bounded_times=bool(cfg.get('cache', True) or cfg.get('debug', False)), gain=dict(cfg.get('gain', {})))
     CTX.update(CTX_EXTRA)
     r = Run()
     r.ref, r.loop, r.log, r.until = ref, loop, log, until
@@ -468,7 +471,13 @@ def run_world(eng, topo, cfg, behaviour=None, hook=None, fault=None, rules=None,
                   max_loop_iterations=cfg.get('max_loop_iterations', 100))
         if world_kwargs:
             wk.update(world_kwargs)
-        w = mosaik.World({'S': {'python': 'vk.sysrun:SymSim'}, 'R': {'connect': 'mem:1'}}, **wk)
+        sim_config = {'S': {'python': 'vk.sysrun:SymSim'}, 'R': {'connect': 'mem:1'}}
+        for sid in cfg.get('remote_cmd', ()):
+            # started by the cmd starter, each from its own entry; a simulator named in cfg['gain'] gets its gain through its environment
+            sim_config[f'C_{sid}'] = {'cmd': 'mem-sim 1 %(addr)s'}
+            if sid in cfg.get('gain', {}):
+                sim_config[f'C_{sid}']['env'] = {'VK_GAIN': str(cfg['gain'][sid])}
+        w = mosaik.World(sim_config, **wk)
         r.world = w
         try:
             build(w, ref, topo, eng, cfg)
